@@ -54,9 +54,10 @@ func genC15(t *rapid.T) C15Case {
 	if rapid.IntRange(0, 3).Draw(t, "introot") == 0 {
 		ty = m.TInt
 	}
-	tree := g.Expr(ty, g.Depth)
+	tree := g.Program(ty)
 	if tree.IsLeaf() && rapid.IntRange(0, 3).Draw(t, "keepleaf") != 0 {
-		tree = g.Expr(ty, g.Depth+1)
+		g.Depth++
+		tree = g.Program(ty)
 	}
 	fixEmptyLists(tree)
 	normSymbolic(tree)
